@@ -111,6 +111,26 @@ func Discharge(o *Obligation, timeoutS int, allSolvers bool) *Result {
 			}
 		}
 	}
+	// second attempt: the abstracted query (control-flow skeleton + the heap arrays of the goal); unsat is conclusive
+	if o.Expect == "unsat" {
+		if aq, ok := o.AbstractQuery(Prelude); ok {
+			if af, err := os.CreateTemp(WorkDir, "a*.smt2"); err == nil {
+				af.WriteString(aq)
+				af.Close()
+				to := timeoutS
+				if to > 5 {
+					to = 5
+				}
+				ans, _, secs := runSolver(Solvers[0], to, af.Name())
+				os.Remove(af.Name())
+				r.Seconds += secs
+				if ans == "unsat" {
+					r.Status, r.Solver, r.Answer = "discharged", Solvers[0].Name+"/abstracted", ans
+					return r
+				}
+			}
+		}
+	}
 	if o.Kind == "cover" {
 		// vacuity guards: short budget, first solver only
 		ans, out, secs := runSolver(Solvers[0], 3, f.Name())
